@@ -80,7 +80,7 @@ def make_dispatcher(kind, execs):
         return {'a': a, 'b': b}
 
     d = AsyncDispatcher() if is_async else Dispatcher()
-    for beh in ('echo', 'typed', 'typednull', 'unreg', 'exc', 'typedsrv', 'unregsrv'):
+    for beh in ('echo', 'typed', 'typednull', 'unreg', 'exc', 'typedsrv', 'unregsrv', '_echo'):
         if coro:
             async def m(a=None, b=None, _beh=beh):
                 return body(_beh, a, b)
